@@ -233,6 +233,11 @@ func scenariosFor(prop string) []scn {
 		// two sources, the second one cannot be opened at the first Start: everything the failed Start opened must be
 		// released, the next Start works
 		both(flowParams{Sources: 2, Records: 1, Batch: 1, Dests: 1, AckMenu: onlyOK, GateSrcOpen: []string{"s1"}, Ctl: []string{"start", "stopwait"}}, 1, 2)
+		// the first Start fails AFTER a source was opened (the DLQ connector, a destination behind processors, or a
+		// source-side processor cannot be opened): everything it opened or reserved is released, the next Start works
+		both(flowParams{Sources: 1, Records: 1, Batch: 1, Dests: 1, AckMenu: onlyOK, GateDLQOpen: true, Ctl: []string{"start", "stopwait"}}, 1, 2)
+		both(flowParams{Sources: 1, Records: 1, Batch: 1, Dests: 1, AckMenu: onlyOK, GateDestOpen: true, Procs: []procParam{{ID: "pp"}}, Ctl: []string{"start", "stopwait"}}, 1, 2)
+		both(flowParams{Sources: 1, Records: 1, Batch: 1, Dests: 1, AckMenu: onlyOK, Procs: []procParam{{ID: "pp", Parent: "s0"}}, ProcOpenMenu: []string{"ok", "err"}, Ctl: []string{"start", "stopwait"}}, 1, 2)
 		// a slow status store: the write of "running" is still in flight while the run already fails and ends
 		both(flowParams{Sources: 1, Records: 1, Batch: 1, Dests: 1, AckMenu: onlyOK, ReadMenu: []string{"ok", "err", "fatal"}, LatePut: true, Ctl: []string{"wait"}, Retries: -1}, 2, 3)
 		both(flowParams{Sources: 1, Records: 1, Batch: 1, Dests: 1, AckMenu: []string{"ok", "err"}, LatePut: true, Ctl: []string{"wait", "start"}, Retries: 1}, 2, 3)
